@@ -90,13 +90,14 @@ CLAIMS = {
              "zombie rows counted inside MultiState::draw are covered for one member only (C02).",
         ref="4/C19"),
     "C02": dict(
-        technique=K,
+        technique=K + "; row hand-over after reaping inside MultiState::draw by MIR def-chain analysis with SMT path feasibility (z3 + cvc5) and native scenario replay",
         text="Logical order: from ANY state of the slot invariant of a MultiState with 2 slots (symbolic permutation of the slots, every split into live and "
              "free) one real MultiState::insert at End / Index(p) / IndexFromBack(p) / After(anchor) / Before(anchor) (p in 0..=3, every live anchor) puts the "
              "new bar at the documented position counted among the LIVE bars, keeps the relative order of the others, recycles the most recently freed slot "
              "or allocates a fresh one, and preserves the invariant; remove_idx of any slot takes a live slot out of the order and resets it, removing a free "
              "slot changes nothing; mark_zombie from any state of 3 members reaps exactly the head bar (its wrapped rows move from last_line_count to "
-             "zombie_lines_count) and only flags any other. Being inductive steps, index reuse after removals is covered for histories of any length within the bound.",
+             "zombie_lines_count) and only flags any other. Being inductive steps, index reuse after removals is covered for histories of any length within the bound. "
+             "Engine M (R1): every LineAdjust::Keep(x) of MultiState::draw takes x from a row accumulator local to that draw (never a MultiState field).",
         note="Partial: the CONTENT of the painted frame (every member once, in order, below the log; zombie reaping; alignment) needs MultiState::draw end to end: "
              "CBMC finishes it only for ONE member (quick: a head zombie is painted a last time, reaped, its row kept with Keep(1); thorough: a live member), two "
              "members run out of 28 GB (tier `deep`); live-bar count and position argument are concrete per harness instance (Vec::insert at a symbolic index "
